@@ -33,6 +33,13 @@ func IsVar(x interface{}) bool {
 	return ok && strings.HasPrefix(s, "?")
 }
 
+// IsOptionalVar: "??x" as the value of a map entry makes the entry optional
+// (if the key is there, the variable is bound as usual).
+func IsOptionalVar(x interface{}) bool {
+	s, ok := x.(string)
+	return ok && strings.HasPrefix(s, "??")
+}
+
 func isScalar(x interface{}) bool {
 	if _, ok := Num(x); ok {
 		return true
@@ -148,12 +155,15 @@ type Result struct {
 	ContainerRebind bool
 	// PropVar is set when a property variable was used.
 	PropVar bool
+	// Optional is set when an optional field was skipped.
+	Optional bool
 }
 
 type matcher struct {
 	mode            Mode
 	containerRebind bool
 	propVar         bool
+	optional        bool
 }
 
 // Match returns every binding set (extending init) under which the pattern
@@ -165,7 +175,7 @@ func Match(pattern, data interface{}, init Bindings, mode Mode) Result {
 		b[k] = v
 	}
 	bss := m.match(pattern, data, b)
-	return Result{Bss: Dedup(bss), ContainerRebind: m.containerRebind, PropVar: m.propVar}
+	return Result{Bss: Dedup(bss), ContainerRebind: m.containerRebind, PropVar: m.propVar, Optional: m.optional}
 }
 
 func cp(b Bindings) Bindings {
@@ -233,6 +243,11 @@ func (m *matcher) match(p, d interface{}, b Bindings) []Bindings {
 		for _, k := range keys {
 			dv, have := dm[k]
 			if !have {
+				if IsOptionalVar(pv[k]) {
+					// an optional field that is not there
+					m.optional = true
+					continue
+				}
 				return nil
 			}
 			var next []Bindings
@@ -410,6 +425,11 @@ func Subst(p interface{}, b Bindings) interface{} {
 					if s, ok := x.(string); ok {
 						k = s
 					}
+				}
+			}
+			if IsOptionalVar(y) {
+				if _, bound := b[y.(string)]; !bound {
+					continue // an optional field that was not there
 				}
 			}
 			n[k] = Subst(y, b)
